@@ -75,6 +75,22 @@ def check(P, R):
              why='hooks survive the removal of routes around them; a fresh router built from the survivors fires them',
              key_extra=role)
 
+    # a node created by a split is a bare prefix: it must not keep the route data or the hook of the node it was split from
+    sp = P.func(f'{RD}:RadiDict._split')
+    fresh = [c for c in walk_shallow(sp.node) if isinstance(c, ast.Call) and dotted(c.func) == 'self._make_node'
+             and not any(k.arg in ('data', 'hooks') for k in c.keywords)]
+    whole = [st for st in walk_shallow(sp.node) if isinstance(st, ast.Assign) and isinstance(st.targets[0], ast.Subscript) and isinstance(st.targets[0].slice, ast.Slice)
+             and st.targets[0].slice.lower is None and any(st.value is c for c in fresh)]
+    if whole:
+        R.ob('C11.a', sp, whole[0], True, text='_split: prefix node rebuilt by _make_node (no data, no hooks)')
+    else:
+        for slot in ('DATA', 'HOOKS'):
+            resets = [st for st in walk_shallow(sp.node) if isinstance(st, ast.Assign) and c01.slot_name(st.targets[0]) == slot and is_const(st.value, None)]
+            R.ob('C11.a', sp, resets[0] if resets else sp.node, bool(resets), text=f'_split: prefix node [{slot}] reset', detail='' if resets else
+                 f'the node is split in place without clearing its [{slot}] slot: the new prefix node keeps the payload of the node it was split from (a hook then '
+                 f'fires for sibling routes that do not extend its rule, and twice for those that do)',
+                 why='a route hook fires for exactly those matched routes whose rule extends the hook\'s rule', key_extra='split-' + slot)
+
     # ---- b: must-pass under hooks_only == True
     hp = 'hooks_only'
     R.require(hp in rm.params, 'RadiDict.remove: hooks_only parameter missing')
